@@ -42,6 +42,7 @@ type c15Sub struct {
 	prefix    string
 	exclusive bool
 	changes   int
+	lastSeen  []string // the value list the change listener read the last time it ran
 }
 
 func c15Run(r *zsim.Run) {
@@ -98,10 +99,33 @@ func c15Run(r *zsim.Run) {
 				r.Failf("view-diverged", "%s: subscriber %d (exclusive=%v) has values %v but the live keys under the prefix carry %v (keys %v)", when, i, s.exclusive, got, want, live)
 				return false
 			}
+			if s.changes > 0 {
+				seen := append([]string(nil), s.lastSeen...)
+				sort.Strings(seen)
+				if strings.Join(seen, ",") != strings.Join(got, ",") {
+					r.Failf("listener-not-called", "%s: the list subscriber %d's change listener read when it last ran is %v, the subscriber now holds %v: an update was applied without the listener being run afterwards", when, i, seen, got)
+					return false
+				}
+			}
 		}
 		return true
 	}
 	together := false // several first subscribers at once: deliveries of one load are still in flight when another returns
+	// settle: everything delivered so far has been processed, slow change listeners included
+	inListener := 0 // change listeners currently running (some are slow)
+	settle := func() {
+		for i := 0; i < 1000; i++ {
+			r.Quiesce()
+			if inListener == 0 {
+				zsim.Sleep(2 * time.Millisecond) // longer than a slow listener takes: the next one, if any, has started
+				r.Quiesce()
+				if inListener == 0 {
+					return
+				}
+			}
+			zsim.Sleep(5 * time.Millisecond)
+		}
+	}
 	attach := func() bool {
 		ex := useExclusive && o.Intn(2) == 0
 		var opts []SubOption
@@ -128,7 +152,17 @@ func c15Run(r *zsim.Run) {
 			zsim.Sleep(time.Second)
 		}
 		cs := &c15Sub{s: s, prefix: prefix, exclusive: ex}
-		s.AddListener(func() { cs.changes++ })
+		slow := o.Intn(3) == 0
+		s.AddListener(func() {
+			// a consumer (a load balancer) re-reads the list whenever it is told of a change
+			cs.changes++
+			inListener++
+			if slow {
+				zsim.Sleep(time.Millisecond)
+			}
+			cs.lastSeen = append([]string(nil), s.Values()...)
+			inListener--
+		})
 		subs = append(subs, cs)
 		r.Logf("subscriber %d attached to %s exclusive=%v", len(subs)-1, prefix, ex)
 		// a subscriber that joins sees the current set at once
@@ -196,7 +230,7 @@ func c15Run(r *zsim.Run) {
 	} else if !attach() {
 		return
 	}
-	r.Quiesce()
+	settle()
 	if !check("after the first subscriber attached") {
 		return
 	}
@@ -310,11 +344,23 @@ func c15Run(r *zsim.Run) {
 			for j := 0; j < n; j++ {
 				mutate()
 			}
+			if o.Intn(2) == 0 {
+				// somebody reads the lists while the events are being applied
+				readers := append([]*c15Sub(nil), subs...)
+				r.Go("reader", func() {
+					for k := 0; k < 4; k++ {
+						for _, cs := range readers {
+							cs.s.Values()
+						}
+						zsim.Yield("reader")
+					}
+				})
+			}
 			etcd.Deliver(o.Intn(2) == 0)
 		}
 		r.Quiesce()
 		etcd.Deliver(false)
-		r.Quiesce()
+		settle()
 		if !check(fmt.Sprintf("step %d", i)) {
 			return
 		}
